@@ -678,8 +678,8 @@ VARIANTS = [
     ('acl fragment slice one byte too wide', 'bumble/host.py', "            pdu = sdu[offset : offset + max_packet_size]\n", "            pdu = sdu[offset : offset + max_packet_size + 1]\n", 'fire', 'C05.acl-fragments'),
     ('continuation flag from offset >= 0', 'bumble/host.py', "                pb_flag=1 if offset > 0 else 0,\n", "                pb_flag=1 if offset >= 0 else 0,\n", 'fire', 'C05.acl-fragments'),
     ('iso sequence number per fragment', 'bumble/host.py',
-     "            bytes_remaining -= fragment_length\n\n        iso_link.packet_sequence_number = (iso_link.packet_sequence_number + 1) & 0xFFFF\n",
-     "            bytes_remaining -= fragment_length\n\n            iso_link.packet_sequence_number = (iso_link.packet_sequence_number + 1) & 0xFFFF\n", 'fire', 'C05.iso-fragments'),
+     '            bytes_remaining -= fragment_length\n            if not bytes_remaining:\n                break\n\n        iso_link.packet_sequence_number = (iso_link.packet_sequence_number + 1) & 0xFFFF\n',
+     '            bytes_remaining -= fragment_length\n            iso_link.packet_sequence_number = (iso_link.packet_sequence_number + 1) & 0xFFFF\n            if not bytes_remaining:\n                break\n\n', 'fire', 'C05.iso-fragments'),
     ('iso fragment ignores header', 'bumble/host.py', "                bytes_remaining, iso_link.packet_queue.max_packet_size - header_length\n", "                bytes_remaining, iso_link.packet_queue.max_packet_size\n", 'fire', 'C05.iso-fragments'),
     ('assembler overflow keeps data', 'bumble/hci.py',
      "                logger.warning('!!! ACL data exceeds L2CAP PDU')\n                self.current_data = None\n                self.l2cap_pdu_length = 0\n", "                logger.warning('!!! ACL data exceeds L2CAP PDU')\n", 'fire', 'C05.assembler'),
